@@ -66,6 +66,32 @@ class _CannotInline(Exception):
     pass
 
 
+def _breaks_set_flag(stmts, flag):
+    """the loop body with every `break` of this loop preceded by `flag = True`"""
+    out = []
+    for st in stmts:
+        if isinstance(st, ast.Break):
+            out.append(ast.copy_location(ast.Assign(targets=[ast.Name(id=flag, ctx=ast.Store())], value=ast.Constant(value=True), lineno=st.lineno), st))
+            out.append(st)
+        elif isinstance(st, ast.If):
+            st.body = _breaks_set_flag(st.body, flag)
+            st.orelse = _breaks_set_flag(st.orelse, flag)
+            out.append(st)
+        elif isinstance(st, ast.With):
+            st.body = _breaks_set_flag(st.body, flag)
+            out.append(st)
+        elif isinstance(st, ast.Try):
+            st.body = _breaks_set_flag(st.body, flag)
+            st.orelse = _breaks_set_flag(st.orelse, flag)
+            st.finalbody = _breaks_set_flag(st.finalbody, flag)
+            for h in st.handlers:
+                h.body = _breaks_set_flag(h.body, flag)
+            out.append(st)
+        else:
+            out.append(st)          # nested loops keep their own breaks
+    return out
+
+
 def _tailify(stmts: List[ast.stmt], ret: str) -> List[ast.stmt]:
     """Single-exit form: every `return v` becomes `ret = v`; code after an exiting `if` moves into the other arm."""
     out: List[ast.stmt] = []
@@ -129,6 +155,21 @@ def _tailify(stmts: List[ast.stmt], ret: str) -> List[ast.stmt]:
                 new = ast.While(test=st.test, body=body, orelse=tail)
             out.append(ast.copy_location(new, st))
             ast.fix_missing_locations(new)
+            return out
+        if isinstance(st, (ast.For, ast.While)) and st.orelse and not _has_return(st.body) and _always_exits(st.orelse) and _has_own_break(st):
+            # `for ..: .. break .. / else: return a` followed by `rest` (reached only through the break): a flag says how the loop was left
+            flag = f"{ret}_broke"
+            body = _breaks_set_flag(copy.deepcopy(st.body), flag)
+            if isinstance(st, ast.For):
+                loop = ast.For(target=st.target, iter=st.iter, body=body, orelse=[], type_comment=None)
+            else:
+                loop = ast.While(test=st.test, body=body, orelse=[])
+            init = ast.Assign(targets=[ast.Name(id=flag, ctx=ast.Store())], value=ast.Constant(value=False), lineno=st.lineno)
+            choose = ast.If(test=ast.Name(id=flag, ctx=ast.Load()), body=_tailify(rest, ret) if rest else [ast.Pass()], orelse=_tailify(st.orelse, ret))
+            for x in (init, loop, choose):
+                ast.copy_location(x, st)
+                ast.fix_missing_locations(x)
+            out.extend([init, loop, choose])
             return out
         if isinstance(st, ast.With) and not rest:
             new = ast.copy_location(ast.With(items=st.items, body=_tailify(st.body, ret)), st)
@@ -1175,6 +1216,25 @@ class Normalizer:
             ast.copy_location(loop, st)
             ast.fix_missing_locations(loop)
             return self._stmt(loop, cls, depth)
+        # `a, b = (E(c) for c in (c1, c2))`: a = E(c1); b = E(c2)   (a comprehension over a display of as many simple elements as targets)
+        if isinstance(st, ast.Assign) and len(st.targets) == 1 and isinstance(st.targets[0], (ast.Tuple, ast.List)) \
+                and all(isinstance(t_, ast.Name) for t_ in st.targets[0].elts) \
+                and isinstance(st.value, (ast.GeneratorExp, ast.ListComp)) and len(st.value.generators) == 1 and not st.value.generators[0].ifs \
+                and isinstance(st.value.generators[0].target, ast.Name) \
+                and isinstance(st.value.generators[0].iter, (ast.Tuple, ast.List)) \
+                and len(st.value.generators[0].iter.elts) == len(st.targets[0].elts) \
+                and all(isinstance(x, (ast.Constant, ast.Name, ast.Attribute)) for x in st.value.generators[0].iter.elts):
+            var = st.value.generators[0].target.id
+            names_ = {t_.id for t_ in st.targets[0].elts}
+            used = {n_.id for n_ in ast.walk(st.value.elt) if isinstance(n_, ast.Name)}
+            if not (names_ & used):
+                res = []
+                for t_, x in zip(st.targets[0].elts, st.value.generators[0].iter.elts):
+                    a_ = ast.Assign(targets=[ast.Name(id=t_.id, ctx=ast.Store())], value=_SubstName({var: x}).visit(copy.deepcopy(st.value.elt)), lineno=st.lineno)
+                    ast.copy_location(a_, st)
+                    ast.fix_missing_locations(a_)
+                    res.extend(self._stmt(a_, cls, depth))
+                return res
         # `for a, v in zip(NAMES, f())` over a display of n names and a computed tuple: the rows (name_i, t[i]) of `t = f()`
         # (model assumption, as for `a, b, c = f()`: the computed tuple has the display's length)
         if isinstance(st, ast.For) and not st.orelse and isinstance(st.iter, ast.Call) and isinstance(st.iter.func, ast.Name) \
